@@ -159,7 +159,25 @@ def judge_obs(sheet, settings, ob, extra_names=()):
         kind = "comment_lost" if "comment" in d else "declaration_changed" if "declaration" in d else "structure_changed"
         culprit = next((it.kind for sel, it, _w in sheet.rules if ("rule %s" % sel) in d), "passthrough")
         v("preserve/%s/%s" % (kind, culprit), "the written file differs from the input outside the adjusted colour values: %s" % d)
-    # output must itself be re-readable: same tree when tokenised again after a tinycss2 round trip is not required; but no parse junk introduced
+    # the values that were allowed to change must themselves be valid CSS: a colour CSS Color 3 defines, or a var() reference
+    from mc.oracle import css_color
+
+    by_sel_out, _defs = O.output_model(ob["out_text"])
+    for sel in sorted(adjusted):
+        for decls, _path in by_sel_out.get(sel, []):
+            d = O.last_decl(decls, "color")
+            if d is None:
+                continue
+            val = T.serialize_value([t for t in d[2] if t[0] != "comment"]).strip()
+            if O.var_name(val) is None and css_color.parse(val) is None:
+                v("preserve/adjusted_value_not_valid_css", "rule %s was adjusted to %r, which is not a valid CSS colour value" % (sel, val))
+    for sel in (":root", "html"):
+        for decls, _path in by_sel_out.get(sel, []):
+            for d in decls:
+                if d[0] == "decl" and d[1] in props:
+                    val = T.serialize_value([t for t in d[2] if t[0] != "comment"]).strip()
+                    if O.var_name(val) is None and css_color.parse(val) is None:
+                        v("preserve/adjusted_value_not_valid_css", "custom property %s was set to %r, which is not a valid CSS colour value" % (d[1], val))
     return out
 
 
